@@ -6,7 +6,8 @@ ty    = "s" | ["n", rust_name] | "b" | ["v", ty] | ["o", ty] | ["c", name]
 attr  = {"k": "validate", "items": [item]} | {"k": "path"} | {"k": "other", "src": "#[serde(default)]"}
 item  = {"k": "length"|"range", "args": [arg]} | {"k": "email"|"url", "args": None | [arg]}
       | {"k": "x", "name": ident, "kv": None | [[key, literal_source, value]]}
-arg   = {"k": "min"|"max", "neg": bool, "lit": text} | {"k": "msg", "lit": literal_source, "value": str}
+arg   = {"k": "min"|"max"|"equal", "neg": bool, "lit": text} | {"k": "msg", "lit": literal_source, "value": str}
+      | {"k": "code", "lit": literal_source, "value": str}
 """
 import itertools
 
@@ -50,6 +51,8 @@ class Q(str):
 def arg_rust(a):
     if a["k"] == "msg":
         return "message = %s" % a["lit"]
+    if a["k"] == "code":
+        return "code = %s" % a["lit"]
     return "%s = %s%s" % (a["k"], "-" if a["neg"] else "", a["lit"])
 
 
@@ -85,6 +88,8 @@ def struct_rust(fields, name="S"):
 def arg_sx(a):
     if a["k"] == "msg":
         return ["msg", Q(a["lit"]), Q(a["value"])]
+    if a["k"] == "code":
+        return ["code", Q(a["lit"])]
     return [a["k"], bool(a["neg"]), Q(a["lit"])]
 
 
@@ -137,7 +142,7 @@ def declared_literals(f):
                     out.append(kv[2])
             else:
                 for g in i["args"] or []:
-                    if g["k"] == "msg":
+                    if g["k"] in ("msg", "code"):
                         out.append(g["value"])
     return out
 
@@ -189,6 +194,10 @@ def msg(value, rng=None, style="esc"):
     return {"k": "msg", "lit": lit_of(value, rng, style), "value": value}
 
 
+def code(value):
+    return {"k": "code", "lit": '"%s"' % value, "value": value}
+
+
 def bound(k, text):
     neg = text.startswith("-")
     return {"k": k, "neg": neg, "lit": text[1:] if neg else text}
@@ -225,6 +234,11 @@ def F(name, ty, *attrs):
 # ------------------------------------------------------------------ random pieces
 CLEAN_WORDS = ["Too", "short", "value", "must", "be", "at", "least", "chars", "long", "between", "and", "invalid",
                "bad", "input", "please", "fix", "1", "5", "100", ">=", "<", "ok", "A-Z", "x", "Name", "field"]
+# words and fragments that look like argument keys or key = value pairs but are none of HEAD's scanner keywords
+KEYLIKE = ["equal", "equals", "equal = 3,", "equal to 5", "code", "code = 7", "size = 2,", "n = 1", "= 4,", ", 9", "required",
+           "nested", "pattern", "path", "other", "function", "custom", "regex", "len", "lenght", "rang", "mi n", "ma x", "e-mail", "u r l",
+           "mess age", "limit = 10", "count", "exactly 3"]
+CLEAN_CODES = ["too_short", "bad_size", "invalid", "size", "E1001", "equal_size", "out_of_bounds", "code"]
 CLEAN_PUNCT = ['"', "'", "\\", "(", ",", "=", ":", ";", "!", "?", "{", "}", "[", "]", "#", "%", "\n", "\t", ".", "/", "<b>"]
 MULTI = ["é", "ü", "ß", "€", "中", "文", "\U0001f600", "\U00010348", "́", " ", " "]
 
@@ -247,10 +261,12 @@ def clean_message(rng):
         parts = []
         for _ in range(n):
             r = rng.random()
-            if r < 0.3:
+            if r < 0.25:
                 parts.append(rng.choice(CLEAN_PUNCT))
-            elif r < 0.42:
+            elif r < 0.37:
                 parts.append(rng.choice(MULTI))
+            elif r < 0.55:
+                parts.append(rng.choice(KEYLIKE))
             else:
                 parts.append(rng.choice(CLEAN_WORDS))
             if rng.random() < 0.7:
@@ -375,12 +391,22 @@ def gen_field(rng, name, wild):
         elif r < 0.9:
             args = [bound("max", boundf())]
         args += message()
-        rng.shuffle(args) if rng.random() < 0.3 else None
+        if rng.random() < 0.2:
+            args.append(code(rng.choice(CLEAN_CODES) if not wild else rng.choice(CLEAN_CODES + ["min_len", "max_size", "email_bad", "length", "a)b"])))
+        if rng.random() < 0.5:
+            rng.shuffle(args)            # message / code first, bounds after is legal
         return args
+
+    def length_item():
+        if wild and rng.random() < 0.12:          # length(equal = n): class C11-10
+            args = [bound("equal", u64_bound(rng))] + message()
+            rng.shuffle(args)
+            return length(*args)
+        return length(*args_for(lambda: u64_bound(rng)))
 
     if kind == "s":
         if rng.random() < 0.6:
-            items.append(length(*args_for(lambda: u64_bound(rng))))
+            items.append(length_item())
         if rng.random() < 0.3:
             items.append(email([msg(clean_message(rng))] if (wild and rng.random() < 0.3) else None))
         if rng.random() < 0.25:
@@ -390,7 +416,7 @@ def gen_field(rng, name, wild):
             items.append(rangev(*args_for(lambda: f64_bound(rng, wild, wild))))
     elif kind == "v":
         if rng.random() < 0.7:
-            items.append(length(*args_for(lambda: u64_bound(rng))))
+            items.append(length_item())
     if rng.random() < 0.2:
         n, kv = rng.choice(OTHER_WILD if (wild and rng.random() < 0.6) else OTHER_CLEAN)
         items.append(other(n, kv))
@@ -470,4 +496,31 @@ def offset_structs(tier):
                 v = base[:pos] + ch + base[pos:]
                 fields.append(F("f%d" % pos, "s", V(length(bound("min", "1"), msg(v)))))
             out.append({"fields": fields})
+    return out
+
+
+def order_structs(tier):
+    """argument ORDER x key-like message words: every permutation of {message, code?, bounds} for length and range on
+    String / Vec / Option fields, with messages built from words a substring scanner could take for a key although
+    HEAD's scanners do not (equal, code, required, digits, '=' and ',' ...). All outside every class: must pass."""
+    import itertools
+    words = KEYLIKE if tier != "quick" else KEYLIKE[:12]
+    fields = []
+    shapes = [("s", "length", ["2", "30"]), (["v", "s"], "length", ["1", "8"]), (["o", "s"], "length", ["3", "5"]),
+              (["n", "i32"], "range", ["0", "1e3"]), (["o", ["n", "f64"]], "range", ["0.5", "99.5"])]
+    k = 0
+    for w in words:
+        for ty, kind, (lo, hi) in shapes:
+            for bounds in ([bound("max", hi)], [bound("min", lo)], [bound("min", lo), bound("max", hi)]):
+                m = msg("must not be %s to it" % w if k % 2 else "%s 5" % w)
+                base = [m] + bounds + ([code("size")] if k % 3 == 0 else [])
+                k += 1
+                for perm in itertools.permutations(base):
+                    if perm[0]["k"] in ("min", "max") and perm[-1]["k"] == "msg":
+                        continue          # the usual order is covered by the other streams
+                    it = {"k": kind, "args": list(perm)}
+                    fields.append((ty, [V(it)]))
+    out = []
+    for i in range(0, len(fields), 6):
+        out.append({"fields": [F("f%d" % j, ty, *attrs) for j, (ty, attrs) in enumerate(fields[i:i + 6])]})
     return out
